@@ -1,0 +1,51 @@
+//go:build verif
+
+package litestream
+
+import (
+	"context"
+	"sync/atomic"
+)
+
+// Verification hooks (build tag "verif" only). A hook is called at linearization points of the
+// sync / checkpoint / close / upload paths with an event name and cheap scalar arguments. The
+// hook may block: test harnesses use it as a gate to place another actor's step at that point.
+
+const verifEnabled = true
+
+var verifHook atomic.Pointer[func(ev string, args ...any)]
+
+// VerifSetHook installs (or, with nil, removes) the process-wide verification hook.
+func VerifSetHook(f func(ev string, args ...any)) {
+	if f == nil {
+		verifHook.Store(nil)
+		return
+	}
+	verifHook.Store(&f)
+}
+
+func verifTrace(ev string, args ...any) {
+	if f := verifHook.Load(); f != nil {
+		(*f)(ev, args...)
+	}
+}
+
+// VerifSyncState exposes the in-memory sync-tracking flags of a DB.
+func (db *DB) VerifSyncState() (syncedToWALEnd bool, lastSyncedWALOffset int64, syncedSinceCheckpoint, truncatePassiveFailed bool) {
+	db.mu.Lock()
+	defer db.mu.Unlock()
+	s := db.syncState
+	return s.syncedToWALEnd, s.lastSyncedWALOffset, s.syncedSinceCheckpoint, s.truncatePassiveFailed
+}
+
+// VerifHasReadLock reports whether the long-running read transaction is held.
+func (db *DB) VerifHasReadLock() bool {
+	db.mu.Lock()
+	defer db.mu.Unlock()
+	return db.rtx != nil
+}
+
+// VerifPageMap exposes the chunked page map of a WAL reader.
+func (r *WALReader) VerifPageMap(ctx context.Context, maxBytes int64) (m map[uint32]int64, maxOffset int64, commit uint32, limited bool, err error) {
+	return r.pageMap(ctx, maxBytes)
+}
